@@ -276,7 +276,12 @@ func runC10Stream(t *testing.T, rng *rand.Rand, rec *sim.Rec, tier string, caseN
 	}
 	// optionally a tail: incomplete frame or bytes that cannot begin a frame
 	tail := "none"
-	switch rng.Intn(6) {
+	switch rng.Intn(7) {
+	case 3:
+		// a complete, well-formed ChannelData message - but its number lies in 0x8000-0xFFFF,
+		// which cannot begin a frame (first two bits 10 or 11)
+		stream = append(stream, wire.EncodeChannelData(uint16(0x8000+rng.Intn(0x8000)), make([]byte, rng.Intn(40)), true)...)
+		tail = "chan-number-high"
 	case 0:
 		f := c10Frame(rng, tier)
 		stream = append(stream, f[:rng.Intn(len(f))]...)
